@@ -1,21 +1,10 @@
 SPECIFICATION Spec
 CONSTANTS
   Variant = "orig"
-  NRule = 2
-  ModeNC = 2
+  NRule = 1
+  ModeNC = 1
   ModeNB = {1}
   NDet = 24
   TopMax = 3
-INVARIANT RuleFinal
-INVARIANT RuleTopBlock
-INVARIANT RuleRange
-INVARIANT RuleCumsum
-INVARIANT ModeIsMode
-INVARIANT ModeTie
-INVARIANT ModeMajority
-INVARIANT ModeUnanimous
-INVARIANT ModeBatchOrder
 INVARIANT DetectOK
-INVARIANT DetectFlagsClean
-INVARIANT DetectKnownExact
 CHECK_DEADLOCK FALSE
